@@ -52,6 +52,67 @@ fn parse_with_lines(fmt: Fmt, input: &[u8], cap: usize) -> Result<Parsed, String
     Ok(out)
 }
 
+/// a new reader whose first call is `seek` to a record position (taken from the reference model of this
+/// very rendering), then everything to the end through next() or record sets
+fn parse_after_seek(fmt: Fmt, input: &[u8], cap: usize, line: u64, byte: u64, via_sets: bool) -> Result<Parsed, String> {
+    let mut out: Parsed = vec![];
+    match fmt {
+        Fmt::Fasta => {
+            let mut r = fasta::Reader::with_capacity(std::io::Cursor::new(input), cap);
+            r.seek(&fasta::Position::new(line, byte)).map_err(|e| format!("seek: {:?}", e))?;
+            if via_sets {
+                let mut set = fasta::RecordSet::default();
+                while let Some(x) = r.read_record_set(&mut set) {
+                    x.map_err(|e| format!("{:?}", e))?;
+                    for rec in &set {
+                        out.push((rec.head().to_vec(), rec.seq_lines().map(|l| l.to_vec()).collect(), None, 0));
+                    }
+                    if out.len() > input.len() + 2 {
+                        return Err("does not end".into());
+                    }
+                }
+            } else {
+                while let Some(x) = r.next() {
+                    let rec = x.map_err(|e| format!("{:?}", e))?;
+                    let item = (rec.head().to_vec(), rec.seq_lines().map(|l| l.to_vec()).collect::<Vec<_>>());
+                    let l = r.position().map(|p| p.line()).unwrap_or(0);
+                    out.push((item.0, item.1, None, l));
+                    if out.len() > input.len() + 2 {
+                        return Err("does not end".into());
+                    }
+                }
+            }
+        }
+        Fmt::Fastq => {
+            let mut r = fastq::Reader::with_capacity(std::io::Cursor::new(input), cap);
+            r.seek(&fastq::Position::new(line, byte)).map_err(|e| format!("seek: {:?}", e))?;
+            if via_sets {
+                let mut set = fastq::RecordSet::default();
+                while let Some(x) = r.read_record_set(&mut set) {
+                    x.map_err(|e| format!("{:?}", e))?;
+                    for rec in &set {
+                        out.push((rec.head().to_vec(), vec![rec.seq().to_vec()], Some(rec.qual().to_vec()), 0));
+                    }
+                    if out.len() > input.len() + 2 {
+                        return Err("does not end".into());
+                    }
+                }
+            } else {
+                while let Some(x) = r.next() {
+                    let rec = x.map_err(|e| format!("{:?}", e))?;
+                    let item = (rec.head().to_vec(), vec![rec.seq().to_vec()], Some(rec.qual().to_vec()));
+                    let l = r.position().line();
+                    out.push((item.0, item.1, item.2, l));
+                    if out.len() > input.len() + 2 {
+                        return Err("does not end".into());
+                    }
+                }
+            }
+        }
+    }
+    Ok(out)
+}
+
 pub fn c12(ctx: &Ctx, rep: &mut Report) {
     let mut idx = ctx.only.unwrap_or(0);
     loop {
@@ -174,6 +235,46 @@ pub fn c12(ctx: &Ctx, rep: &mut Report) {
                     }
                 }
                 rep.map("renderings", name);
+                // the same rendering read by a reader that starts with a seek to record j > 0
+                if k == 1 && abs.recs.len() >= 2 {
+                    let rr = fmt.reference(&input);
+                    if rr.recs.len() == abs.recs.len() {
+                        let jn = 1 + rng.below(abs.recs.len() - 1);
+                        let via_sets = rng.chance(1, 2);
+                        rep.evaluations += 1;
+                        let mut jr = replay();
+                        jr["first_call_is_seek_to_record"] = json!(jn);
+                        jr["via_sets"] = json!(via_sets);
+                        match guarded(|| parse_after_seek(fmt, &input, cap, rr.recs[jn].line, rr.recs[jn].byte, via_sets)) {
+                            Err(c) => crate::m_basic::caught_violation(rep, &c, "reading after an initial seek", jr),
+                            Ok(Err(e)) => rep.violation(
+                                &format!("{}-error-in-rendering", fmt.name()),
+                                format!("rendering {} at capacity {}, reader starting with a seek to record {}: {}", name, cap, jn, e),
+                                jr,
+                            ),
+                            Ok(Ok(p)) => {
+                                rep.count("renderings_read_after_an_initial_seek");
+                                let want = &abs.recs[jn..];
+                                let same = p.len() == want.len() && p.iter().zip(want).all(|(x, a)| x.0 == a.head && x.1 == a.lines && x.2 == a.qual);
+                                if !same {
+                                    rep.violation(
+                                        &format!("{}-records-differ", fmt.name()),
+                                        format!("rendering {} at capacity {}, reader starting with a seek to record {}: {} records, expected {}", name, cap, jn, p.len(), want.len()),
+                                        jr,
+                                    );
+                                } else if !via_sets {
+                                    if let Some(i) = (0..p.len()).find(|i| p[*i].3 != rr.recs[jn + *i].line) {
+                                        rep.violation(
+                                            &format!("{}-line-numbers-differ", fmt.name()),
+                                            format!("rendering {}: after an initial seek record {} reports line {}, true line {}", name, jn + i, p[i].3, rr.recs[jn + i].line),
+                                            jr,
+                                        );
+                                    }
+                                }
+                            }
+                        }
+                    }
+                }
             }
         }
         rep.count("abstract_files");
@@ -1049,7 +1150,24 @@ fn fq_set_eq(a: &fastq::RecordSet, b: &fastq::RecordSet) -> Result<usize, String
     Ok(n)
 }
 
+/// deserialise `v`'s serialised form INTO `place` (an object that has held other values), through JSON
+/// and through the compact format
+fn in_place_rt<T: serde::Serialize + serde::de::DeserializeOwned>(v: &T, place: &mut T, which: u8) -> Result<(), String> {
+    if which == 0 {
+        let s = serde_json::to_vec(v).map_err(|e| e.to_string())?;
+        let mut de = serde_json::Deserializer::from_slice(&s);
+        serde::Deserialize::deserialize_in_place(&mut de, place).map_err(|e| format!("json in place: {}", e))
+    } else {
+        let mode = [crate::vbin::StructMode::Positional, crate::vbin::StructMode::IndexKeys][(which as usize - 1) % 2];
+        let s = crate::vbin::to_vec_mode(v, mode).map_err(|e| e.to_string())?;
+        crate::vbin::from_slice_in_place(&s, mode, place).map_err(|e| format!("compact in place: {}", e))
+    }
+}
+
 pub fn c19(ctx: &Ctx, rep: &mut Report) {
+    // targets of deserialize_in_place: they live as long as the shard and have held the sets of earlier inputs
+    let mut place_fa = fasta::RecordSet::default();
+    let mut place_fq = fastq::RecordSet::default();
     let mut idx = ctx.only.unwrap_or(0);
     loop {
         if ctx.only.is_none() && (ctx.expired() || idx >= ctx.max_cases) {
@@ -1129,7 +1247,9 @@ pub fn c19(ctx: &Ctx, rep: &mut Report) {
                             let k = keyed_rt(&set, m)?;
                             fa_set_eq(&set, &k).map_err(|e| format!("{:?}: {}", m, e))?;
                         }
-                        sets += 5;
+                        in_place_rt(&set, &mut place_fa, (sets % 3) as u8)?;
+                        fa_set_eq(&set, &place_fa).map_err(|e| format!("deserialised in place into a used set: {}", e))?;
+                        sets += 6;
                     }
                 }
                 Fmt::Fastq => {
@@ -1157,7 +1277,9 @@ pub fn c19(ctx: &Ctx, rep: &mut Report) {
                             let k = keyed_rt(&set, m)?;
                             fq_set_eq(&set, &k).map_err(|e| format!("{:?}: {}", m, e))?;
                         }
-                        sets += 5;
+                        in_place_rt(&set, &mut place_fq, (sets % 3) as u8)?;
+                        fq_set_eq(&set, &place_fq).map_err(|e| format!("deserialised in place into a used set: {}", e))?;
+                        sets += 6;
                     }
                 }
             }
@@ -1553,16 +1675,19 @@ pub fn c20(ctx: &Ctx, rep: &mut Report) {
                 ($it:expr, $total:expr) => {{
                     let mut it = $it;
                     let mut got = 0usize;
+                    let mut err_seen = false;
                     loop {
                         let (lo, hi) = it.size_hint();
                         let rem = $total.saturating_sub(got);
-                        // the iterator may also yield one error item
-                        if lo > rem + 1 || hi.map_or(false, |h| h < rem) {
+                        // the iterator may also yield one error item (if the input has an invalid record
+                        // and the error has not come yet)
+                        let extra = if r.has_err() && !err_seen { 1 } else { 0 };
+                        if lo > rem + extra || hi.map_or(false, |h| h < rem) {
                             return Err(format!("owned-record iterator: size_hint {:?} with {} records left", (lo, hi), rem));
                         }
                         match it.next() {
                             Some(Ok(_)) => got += 1,
-                            Some(Err(_)) => {}
+                            Some(Err(_)) => err_seen = true,
                             None => break,
                         }
                         if got > $total + bytes.len() + 5 {
@@ -1590,6 +1715,40 @@ pub fn c20(ctx: &Ctx, rep: &mut Report) {
                     check_owned_iter!(rdr.records(), total);
                     let rdr = fasta::Reader::with_capacity(&bytes[..], cap);
                     check_owned_iter!(rdr.into_records(), total);
+                    if !r.has_err() {
+                        // the same iterators created on a reader that has already delivered records
+                        // through next(), a record set, or an exact-count read of everything left
+                        for mode in 0..6 {
+                            let mut rdr = fasta::Reader::with_capacity(&bytes[..], cap);
+                            let mut delivered = 0usize;
+                            match mode % 3 {
+                                0 => {
+                                    for _ in 0..1 + rng.below(3) {
+                                        if let Some(Ok(_)) = rdr.next() {
+                                            delivered += 1;
+                                        }
+                                    }
+                                }
+                                1 => {
+                                    if let Some(Ok(())) = rdr.read_record_set(&mut set) {
+                                        delivered += set.len();
+                                    }
+                                }
+                                _ => {
+                                    let n = if mode == 2 { total.max(1) } else { 1 + rng.below(total + 1) };
+                                    if let Some(Ok(())) = rdr.read_record_set_exact(&mut set, Some(n)) {
+                                        delivered += set.len();
+                                    }
+                                }
+                            }
+                            if mode < 3 {
+                                check_owned_iter!(rdr.records(), total - delivered.min(total));
+                            } else {
+                                check_owned_iter!(rdr.into_records(), total - delivered.min(total));
+                            }
+                            rep.count("owned_iterators_created_mid_stream");
+                        }
+                    }
                 }
                 Fmt::Fastq => {
                     let mut rdr = fastq::Reader::with_capacity(&bytes[..], cap);
@@ -1603,6 +1762,40 @@ pub fn c20(ctx: &Ctx, rep: &mut Report) {
                     check_owned_iter!(rdr.records(), total);
                     let rdr = fastq::Reader::with_capacity(&bytes[..], cap);
                     check_owned_iter!(rdr.into_records(), total);
+                    if !r.has_err() {
+                        // the same iterators created on a reader that has already delivered records
+                        // through next(), a record set, or an exact-count read of everything left
+                        for mode in 0..6 {
+                            let mut rdr = fastq::Reader::with_capacity(&bytes[..], cap);
+                            let mut delivered = 0usize;
+                            match mode % 3 {
+                                0 => {
+                                    for _ in 0..1 + rng.below(3) {
+                                        if let Some(Ok(_)) = rdr.next() {
+                                            delivered += 1;
+                                        }
+                                    }
+                                }
+                                1 => {
+                                    if let Some(Ok(())) = rdr.read_record_set(&mut set) {
+                                        delivered += set.len();
+                                    }
+                                }
+                                _ => {
+                                    let n = if mode == 2 { total.max(1) } else { 1 + rng.below(total + 1) };
+                                    if let Some(Ok(())) = rdr.read_record_set_exact(&mut set, Some(n)) {
+                                        delivered += set.len();
+                                    }
+                                }
+                            }
+                            if mode < 3 {
+                                check_owned_iter!(rdr.records(), total - delivered.min(total));
+                            } else {
+                                check_owned_iter!(rdr.into_records(), total - delivered.min(total));
+                            }
+                            rep.count("owned_iterators_created_mid_stream");
+                        }
+                    }
                 }
             }
             Ok(iters)
